@@ -6,9 +6,13 @@ mod c01;
 mod c02;
 mod c03;
 mod c06;
+mod c07;
+mod c18;
 
 use common::ev::{Ctx, Report, Tier};
 use std::time::Instant;
+
+static LAST_PANIC: std::sync::Mutex<Option<String>> = std::sync::Mutex::new(None);
 
 type RunFn = fn(&Ctx) -> Report;
 type ReplayFn = fn(&serde_json::Value) -> Vec<String>;
@@ -19,6 +23,8 @@ fn table() -> Vec<(&'static str, RunFn, ReplayFn)> {
         ("C02", c02::run as RunFn, c02::replay as ReplayFn),
         ("C03", c03::run as RunFn, c03::replay as ReplayFn),
         ("C06", c06::run as RunFn, c06::replay as ReplayFn),
+        ("C07", c07::run as RunFn, c07::replay as ReplayFn),
+        ("C18", c18::run as RunFn, c18::replay as ReplayFn),
     ]
 }
 
@@ -34,7 +40,11 @@ fn main() {
         eprintln!("unknown property {prop}");
         std::process::exit(2);
     };
-    // Library code prints progress lines; silence nothing, but keep our lines recognisable.
+    // Panics of the code under test are caught and judged by the checks; keep them off stderr,
+    // but remember the last one for machinery-failure reports.
+    std::panic::set_hook(Box::new(|info| {
+        *LAST_PANIC.lock().unwrap() = Some(info.to_string());
+    }));
     if args[2] == "--replay" {
         let path = &args[3];
         let doc: serde_json::Value =
@@ -70,7 +80,7 @@ fn main() {
     let rep = match std::panic::catch_unwind(|| run(&ctx)) {
         Ok(r) => r,
         Err(_) => {
-            eprintln!("MACHINERY-ERROR property={prop} checker panicked");
+            eprintln!("MACHINERY-ERROR property={prop} checker panicked: {:?}", LAST_PANIC.lock().unwrap());
             std::process::exit(2);
         }
     };
